@@ -54,6 +54,9 @@ type Config struct {
 	NoAuth       bool          // no AuthHandler configured (STUN-only server)
 	Wild         bool          // the stream listener is bound to the unspecified address (0.0.0.0:3478), as in production
 	Dual         bool          // a UDP socket AND a stream listener on the same ip:port, one relay address generator; clients named *t use the stream
+	// AppClosedUDP (Dual worlds): the application has closed the UDP socket it handed to the server before it
+	// calls Server.Close (the order of two deferred Closes), so Server.Close meets a close error on one of its sockets
+	AppClosedUDP bool
 	Name         string
 }
 
@@ -67,6 +70,9 @@ func (c Config) String() string {
 		s += " udp+stream-listeners"
 		if c.StreamPolicy != "" {
 			s += " stream-listener-policy=" + c.StreamPolicy
+		}
+		if c.AppClosedUDP {
+			s += " udp-socket-closed-by-the-application-before-Server.Close"
 		}
 	}
 
@@ -456,6 +462,10 @@ func (w *World) eventHandler() turn.EventHandler {
 
 // CloseServer closes the server and waits for quiescence.
 func (w *World) CloseServer() {
+	if w.Cfg.Dual && w.Cfg.AppClosedUDP && w.SrvSock != nil {
+		_ = w.SrvSock.Close()
+		synctest.Wait()
+	}
 	if w.Srv != nil {
 		_ = w.Srv.Close()
 	}
